@@ -131,6 +131,8 @@ def generate(rng: random.Random, tier: str, allow_starve: bool = True) -> dict:
             key = rng.choice(["lr", "weight_decay"])
             val = gen.f32r(rng, 1e-3, 0.5) if key == "lr" else rng.choice([0.0, 1e-2, 0.1])
             events.append({"op": "set_hparam", "group": rng.randrange(len(groups)), "key": key, "value": val})
+        if events and rng.random() < 0.05:
+            events.append({"op": "poke", "param": rng.randrange(len(params)), "scale": rng.choice([0.5, 0.9, 1.25, -1.0, 2.0])})
         mask = gen.gen_mask(rng, style, len(params), s, prev)
         if hsdp and gsize > 1 and not starving_run:
             for g_ in groups:
@@ -201,6 +203,7 @@ def execute(trace: dict) -> Outcome:
             {
                 "absent_grad_steps": sum(1 for e in trace["events"] if e["op"] == "step" and any(g is None for g in e["g"])),
                 "hparam_write": sum(1 for e in trace["events"] if e["op"] == "set_hparam"),
+                "param_poke": sum(1 for e in trace["events"] if e["op"] == "poke"),
                 "empty_shard": probes.get("empty_shard", 0),
                 "rank_starved": probes.get("starved_history", 0),
                 "rank_skew_run": 1 if (w.get("stickiness", 0) > 0 or min(w.get("weights") or [1.0]) < 1.0) else 0,
